@@ -133,7 +133,7 @@ def run_items(R, items):
 
 def gen_items(R, count):
     items = []
-    kinds = ["unit_sum", "skewed", "tie_heavy", "zeros", "integer", "one_rich", "near_threshold"]
+    kinds = ["unit_sum", "skewed", "tie_heavy", "zeros", "integer", "one_rich", "near_threshold", "tiny", "huge"]
     for t in range(count):
         tsf = R.rng.random() < 0.5
         if tsf:
@@ -152,7 +152,7 @@ def gen_items(R, count):
                 # keep consistency: raise the whole prefix of i's ranking up to j
                 for j2 in range(m):
                     if P[i][j2] <= P[i][j]:
-                        vals[i][j2] = max(vals[i][j2], 1.0 if kind == "integer" else 0.25)
+                        vals[i][j2] = max(vals[i][j2], 1.0 if kind == "integer" else (0.25e-10 if kind == "tiny" else 0.25))
         it = {"P": P, "vals": vals, "k": k, "tsf": tsf, "kind": kind, "seed": R.rng.randrange(10 ** 6)}
         if R.rng.random() < 0.3:
             nv = [[None if R.rng.random() < 0.3 else x for x in row] for row in vals]
